@@ -189,9 +189,12 @@ def check(ctx):
         if re.search(r"export\s+type\s+⟦name⟧", flat) or re.search(r"export\s+interface\s+⟦name⟧", flat):
             ok_plain = True
     # both arms of the isEnum switch
-    enum_t = "".join(f for _, f in flat_all("typescript/partials/enum.tera"))
-    iface_t = "".join(f for _, f in flat_all("typescript/partials/interface.tera"))
-    if re.search(r"export\s+type\s+⟦name⟧\s*=", enum_t) and re.search(r"export\s+interface\s+⟦name⟧\s*\{", iface_t):
+    def flat_ctx(name):
+        # as the including template sees the partial: `{% set name = struct.name %}` substituted, so `name` and `struct.name` are one spelling
+        return "".join(p_.flat(loop=lambda it: "".join(bp.flat() for bp in it[3][:6])) for p_ in (T.paths_in_context(name) or []) if consistent(p_.conds))
+    enum_t = flat_ctx("typescript/partials/enum.tera")
+    iface_t = flat_ctx("typescript/partials/interface.tera")
+    if re.search(r"export\s+type\s+⟦struct\.name⟧\s*=", enum_t) and re.search(r"export\s+interface\s+⟦struct\.name⟧\s*\{", iface_t):
         r1.ok("plain: every struct context is exported as interface ⟦name⟧ / type ⟦name⟧")
     else:
         r1.bad(V(r1.id, "typescript/types.ts.tera", "struct-exports", "plain mode does not export every struct/enum under its name"))
@@ -392,8 +395,29 @@ def check(ctx):
         ast = T.ast_of(name)
         loops = [n for n in tera_walk(ast or []) if n.get("k") == "for"]
         conds = [tx(c["cond"]) for n in tera_walk(ast or []) if n.get("k") == "if" for c in n["conds"]]
-        flat = "".join(f for _, f in flat_all(name))
-        if len(loops) == 1 and tx(loops[0]["container"]) == "files" and conds == ['file != "index.ts"'] and re.search(r"export \* from '\./⟦file\|replace\(from=\"\.ts\",to=\"\"\)⟧'", flat):
+        # every pass through the loop body either re-exports the file or is the pass for index.ts itself — whether the skip is written as
+        # `if file != "index.ts" { export }` or as `if file == "index.ts" { continue }`
+        body_ok = False
+        loop_items = [it for p_ in (T.paths(name) or []) for it in p_.items if it[0] == "loop"]
+        if loop_items:
+            body_ok = True
+            n_exp = 0
+            for bp in loop_items[0][3]:
+                if not consistent(bp.conds):
+                    continue
+                exports = re.search(r"export \* from '\./⟦file\|replace\(from=\"\.ts\",to=\"\"\)⟧'", bp.flat()) is not None
+                cs = set()
+                for (c_, v_) in bp.conds:
+                    m_ = re.fullmatch(r'file (==|!=) "index\.ts"', c_)
+                    cs.add(("is-index", v_ if m_ and m_.group(1) == "==" else (not v_)) if m_ else ("other:" + c_, v_))
+                if exports and cs == {("is-index", False)}:
+                    n_exp += 1
+                elif not exports and cs == {("is-index", True)}:
+                    pass
+                else:
+                    body_ok = False
+            body_ok = body_ok and n_exp >= 1
+        if len(loops) == 1 and tx(loops[0]["container"]) == "files" and body_ok:
             r3.ok("%s: loop over files, skipping only index.ts" % name)
         else:
             r3.bad(V(r3.id, name, "index-template:%s:%s" % ([tx(l["container"]) for l in loops], conds), "index template loops %s under %s" % ([tx(l["container"]) for l in loops], conds)))
